@@ -154,7 +154,7 @@ fn part_sched(run: &mut Run, tier: Tier) {
 
 // ------------------------------------------------------------------ (b)(c)(d)
 fn part_processes_pools_builds(run: &mut Run, tier: Tier) -> HashMap<String, Artefacts> {
-    let ids: Vec<&str> = tier.pick(subjects::QUICK.to_vec(), subjects::THOROUGH.to_vec());
+    let ids: Vec<&str> = tier.pick(subjects::POOLS_QUICK.to_vec(), subjects::POOLS_THOROUGH.to_vec());
     let mut refs: HashMap<String, Artefacts> = HashMap::new();
     for id in &ids {
         match exec_subject(id) {
@@ -162,6 +162,10 @@ fn part_processes_pools_builds(run: &mut Run, tier: Tier) -> HashMap<String, Art
             Ok(a) => {
                 if !a.verified {
                     run.violation(&format!("reference/{}/not-verified", id), "reference proof does not verify", json!({"name": "reference", "circuit": id}));
+                }
+                if id.starts_with('f') {
+                    let log_n: u32 = id[1..].parse().unwrap_or(0);
+                    run.gate(&format!("subject {} fills its domain exactly ({} constraints)", id, a.constraints), a.constraints == 1usize << log_n);
                 }
                 // repeated run in the same process
                 match exec_subject(id) {
@@ -178,7 +182,7 @@ fn part_processes_pools_builds(run: &mut Run, tier: Tier) -> HashMap<String, Art
         }
     }
     // (c) explicit rayon pools
-    let threads: Vec<usize> = tier.pick(vec![1, 2, 3, 4, 5, 17], (1..=17).chain([32]).collect());
+    let threads: Vec<usize> = tier.pick(vec![1, 2, 3, 4, 5, 6, 7, 17], (1..=17).chain([24, 32]).collect());
     for id in &ids {
         let Some(r) = refs.get(*id) else { continue };
         for t in &threads {
